@@ -31,6 +31,9 @@ def combine_composition(
     """
     if composition_A is None or composition_B is None:
         return None
+    if volume_A + volume_B == 0:
+        # nothing is mixed: the (empty) liquid A keeps its composition instead of becoming 0/0
+        return dict(composition_A)
     # convert to volumetric fractions
     volumetric_fractions = {k: f * volume_A for k, f in composition_A.items()}
     # volumetrically add incoming fractions
